@@ -103,9 +103,12 @@ macro_rules! uf2 {
                     $(
                         {
                             if base < n {
+                                let in0: [$A0; 64] = $bank::IN0;
+                                let in1: [$A1; 64] = $bank::IN1;
+                                let outs: [$B; 64] = $bank::OUT;
                                 let mut k = 0;
                                 while k < 64 && base + k < n {
-                                    ok &= ($bank::IN0[k] != x0) | ($bank::IN1[k] != x1) | (y == $bank::OUT[k]);
+                                    ok &= (in0[k] != x0) | (in1[k] != x1) | (y == outs[k]);
                                     k += 1;
                                 }
                             }
